@@ -486,7 +486,11 @@ def gen_calls(rng, fi, n):
                 c['np'] = (0 <= v < 2 ** 64) and rng.random() < 0.3
             tag = '%s:%s:%s' % (k, gtag, vtag)
         calls.append((tag, c))
-    return calls
+    # the same call (same arguments) again later in the sequence: an answer must not depend on having been asked before
+    for _ in range(max(1, n // 10)):
+        tag, c = rng.choice(calls)
+        calls.insert(rng.randint(0, len(calls)), (tag, dict(c)))
+    return calls[:n]
 
 
 # ---------------------------------------------------------------- Coq terms
@@ -633,18 +637,19 @@ def outcome(r):
 
 # ---------------------------------------------------------------- the run
 
-def build_and_run(ctx, files, chains, tag='par'):
-    """files: generated file dicts (with 'calls'); chains: lists of indices -- the files of one chain are loaded one
-    after the other in ONE implementation process (a process handles several chains).  Returns impl output per file."""
+def build_and_run(ctx, files, chains, tag='par', fresh=False):
+    """files: generated file dicts (with 'calls' and 'path_key'); chains: lists of indices -- the files of one chain are
+    loaded one after the other in ONE implementation process (a process handles several chains).  The implementation
+    runner writes each file just before loading it, so files of a chain that share a path_key REWRITE the same path.
+    Returns impl output per file."""
     d = os.path.join(ctx.work, tag)
     os.makedirs(d, exist_ok=True)
     for k, fi in enumerate(files):
-        fi['path'] = os.path.join(d, 'maskbits_%04d.par' % k)
-        with open(fi['path'], 'w') as f:
-            f.write(fi['text'])
-    nb = min(C.NPROC, max(1, len(chains)))
+        fi['path'] = os.path.join(d, '%s.par' % fi.get('path_key', 'maskbits_%04d' % k))
+    nb = len(chains) if fresh else min(C.NPROC, max(1, len(chains)))      # fresh: one process per chain
     batches = [[i for ch in chains[b::nb] for i in ch] for b in range(nb)]
-    payloads = [{'files': [{'path': files[i]['path'], 'calls': [c for _, c in files[i]['calls']]} for i in b]} for b in batches]
+    payloads = [{'files': [{'path': files[i]['path'], 'text': files[i]['text'], 'calls': [c for _, c in files[i]['calls']]}
+                           for i in b]} for b in batches]
     outs = C.run_impl_parallel('c07_impl.py', payloads)
     res = [None] * len(files)
     for b, o in zip(batches, outs):
@@ -676,14 +681,33 @@ def correspond(ctx, proof_ok=True):
             files.append(gen_file(rng, style, kind))
     # then chains of 1-3 files sharing names: a file, then a newer edition of it (labels renamed, bits moved, bit 63
     # added, groups / aliases dropped, added or exchanged), loaded one after the other in the same process
+    # Where the editions live: under ONE path that is rewritten between the loads ('same'), under a path each
+    # ('distinct'), or alternately ('alt': A at p, B at q, then p again -- rewritten with a third edition, or file A
+    # loaded once more unchanged).
+    for ci in range(len(chains)):
+        files[chains[ci][0]]['path_key'] = 'fixed_%02d' % ci
+        files[chains[ci][0]]['path_mode'] = 'single'
     while len(files) < nfiles:
         n = min(rng.choice([1, 2, 2, 3, 3, 3]), nfiles - len(files))
+        mode = 'single' if n == 1 else rng.choice(['same', 'same', 'distinct', 'alt'] if n == 3 else ['same', 'same', 'distinct'])
+        cid = len(chains)
         ch = []
         st = None
         for j in range(n):
-            st = gen_structure(rng) if st is None else vary_structure(rng, st)
-            fi = gen_file(rng, st=st)
+            if mode == 'alt' and j == 2 and rng.random() < 0.5:
+                fi = dict(files[ch[0]])                       # file A again, unchanged, after B
+                fi['ghost_groups'] = list(files[ch[1]]['gnames']) + [a for _, a in files[ch[1]]['structure']['aliases']]
+            else:
+                st = gen_structure(rng) if st is None else vary_structure(rng, st)
+                fi = gen_file(rng, st=st)
             fi['chain_pos'] = j
+            fi['path_mode'] = mode
+            if mode == 'same':
+                fi['path_key'] = 'chain%04d' % cid
+            elif mode == 'alt':
+                fi['path_key'] = 'chain%04d_%s' % (cid, 'q' if j == 1 else 'p')
+            else:
+                fi['path_key'] = 'chain%04d_%d' % (cid, j)
             ch.append(len(files))
             files.append(fi)
         chains.append(ch)
@@ -713,6 +737,14 @@ def correspond(ctx, proof_ok=True):
                           {'kind': 'broken-correspondence', 'item': 'yanny(raw=True) rows of a maskbits file (C01/C02 territory)',
                            'file_text': fi['text'], 'written': [fi['rows'], fi['aliases']], 'read': [out['rows'], out['aliases']]}, False)
         usable.append(k)
+    # caller-owned label lists must come back unmodified
+    for k in usable:
+        for (tag, c), r in zip(files[k]['calls'], outs[k]['results']):
+            if r.get('mutated_argument'):
+                ctx.violation('C07:%s:argument-mutated' % c['k'], 'the label list passed by the caller was modified by the call (%s)' % tag,
+                              {'kind': 'broken-correspondence', 'item': 'caller-owned argument of sdss_%s' % c['k'], 'file_text': files[k]['text'],
+                               'call': c, 'before_after': r['mutated_argument']}, False)
+                break
     # which configuration of the model matches the code?  the translator says (Generated/Maskbits.v -> code_cfg); if
     # it did not recognise the source, the standard model with and without normalisation at load are both tried
     if info.get('recognised'):
@@ -757,8 +789,8 @@ def correspond(ctx, proof_ok=True):
     with_hist = [k for k, _ in detailed if pred[k]]
     alone = {}
     if with_hist:
-        sub = [dict(files[k]) for k in with_hist]
-        souts, _ = build_and_run(ctx, sub, [[j] for j in range(len(sub))], tag='alone')
+        sub = [dict(files[k], path_key='alone_%04d' % k) for k in with_hist]
+        souts, _ = build_and_run(ctx, sub, [[j] for j in range(len(sub))], tag='alone', fresh=True)
         alone = dict(zip(with_hist, souts))
     for (k, v), txt in zip(detailed, texts):
         fi, out = files[k], outs[k]
@@ -767,8 +799,9 @@ def correspond(ctx, proof_ok=True):
             raise C.CoqEvalError('cannot parse fcase_verdicts output: %r' % txt[-400:])
         base = {'file_text': fi['text'], 'file_style': fi['style'], 'file_kind': fi['kind'] + (' (' + fi['note'] + ')' if fi['note'] else ''),
                 'rows_read': out['rows'], 'aliases_read': out['aliases'], 'load': out['load'], 'model_cfg': up,
+                'path': fi.get('path_key'), 'path_mode': fi.get('path_mode'),
                 'dict_keys_after_load': out.get('keys')}
-        history = [{'file_text': files[i]['text'], 'calls': [c for _, c in files[i]['calls']]} for i in pred[k]]
+        history = [{'path': files[i]['path_key'], 'file_text': files[i]['text'], 'calls': [c for _, c in files[i]['calls']]} for i in pred[k]]
 
         def hist_mark(alone_result, result):
             """-> (signature suffix, extra replay fields) for an answer of a file that had predecessors"""
@@ -778,7 +811,8 @@ def correspond(ctx, proof_ok=True):
                 return '', {'standalone_result': alone_result, 'note_history': 'same answer when the file is loaded alone in a fresh process'}
             return ':history-dependent', {'standalone_result': alone_result, 'history': history,
                                           'note_history': 'the answer depends on the maskbits files loaded before in the same process '
-                                                          '(alone in a fresh process the answer is standalone_result); `history` lists them with the calls made'}
+                                                          '(alone in a fresh process the answer is standalone_result); `history` lists them in order with their path '
+                                                          '(an equal path = the same file name rewritten with new contents) and the calls made'}
         if vs[0] != 0:
             findings.setdefault('C07:reader-model', (len(out['rows']), dict(
                 base, kind='broken-correspondence', item='C07.FileModel.file_rows (Yanny.Parse.parse_raw + file_tables)', verdict=vs[0],
@@ -860,6 +894,7 @@ def correspond(ctx, proof_ok=True):
                 'well-formed files, with the specification S; distinct = distinct (file, call) terms',
         'files': len(usable),
         'chains_by_length': {str(n): sum(1 for ch in chains if len(ch) == n) for n in (1, 2, 3)},
+        'chains_by_path_mode': {m: sum(1 for ch in chains if files[ch[0]].get('path_mode') == m) for m in ('single', 'same', 'distinct', 'alt')},
         'files_loaded_after_another_edition': sum(1 for k in usable if pred[k]),
         'files_by_style_kind': {'%s/%s' % (s, kd): sum(1 for k in usable if files[k]['style'] == s and files[k]['kind'] == kd)
                                 for s in ('upper', 'mixed') for kd in ['wf'] + DEFECTS},
@@ -887,22 +922,23 @@ def replay(ctx, rep):
 
     def run(seq):
         fl = []
-        for n, (t, cs) in enumerate(seq):
-            path = os.path.join(ctx.work, 'replay_%d.par' % n)
-            with open(path, 'w') as f:
-                f.write(t)
-            fl.append({'path': path, 'calls': cs})
+        for n, (key, t, cs) in enumerate(seq):
+            fl.append({'path': os.path.join(ctx.work, 'replay', '%s.par' % (key or 'file_%d' % n)), 'text': t, 'calls': cs})
         return C.run_impl('c07_impl.py', {'files': fl})['files'][-1]
-    hist = [(h['file_text'], h['calls']) for h in rep.get('history', [])]
+    hist = [(h.get('path'), h['file_text'], h['calls']) for h in rep.get('history', [])]
+    me = rep.get('path')
     print('maskbits file:\n' + text)
     if hist:
         print('loaded in the same process after %d other file(s) (see `history` in the replay file), calls made under each' % len(hist))
-        fo = run(hist + [(text, calls)])
+        for h in hist:
+            print('   history: path %s, %d calls' % (h[0], len(h[2])))
+        print('   then   : path %s (this file)' % me)
+        fo = run(hist + [(me, text, calls)])
         print('set_maskbits :', fo['load'], ' dictionary keys:', fo.get('keys'))
         if calls:
             print('call         :', calls[0])
             print('impl now, after the history :', fo['results'][0] if fo['results'] else None)
-    fo = run([(text, calls)])
+    fo = run([(me, text, calls)])
     if not hist:
         print('set_maskbits :', fo['load'], ' dictionary keys:', fo.get('keys'))
     if calls:
